@@ -142,7 +142,7 @@ def gen_cases(ctx: Ctx) -> List[Dict[str, Any]]:
             c = fresh_forced(rng, kind)
             if c:
                 cases.append(c)
-    for _ in range(ctx.n(14, 600)):
+    for _ in range(ctx.n(30, 700)):
         cases.append(random_case(rng))
     return cases
 
@@ -186,15 +186,27 @@ def numeric_line(code: bytes, salt: bytes, b: int, A: bytes, M: Optional[bytes])
     return ln
 
 
+def _shape(lead) -> str:
+    """stable name of the failing shape: which of A, B, S, K = SHA-512(S) begin with zero bytes"""
+    if not lead:
+        return "before-srp"
+    if lead.get("K"):
+        return "digest-leading-zero"
+    z = [k for k in ("A", "B", "S") if lead.get(k)]
+    return "leading-zero-" + "".join(z) if z else "no-leading-zero"
+
+
 def oracle_numeric(ctx: Ctx, case: Dict[str, Any], got: Dict[str, Any], cl: ref.ClientResult):
     """The accessory's SRP proof must verify at a controller that knows the code."""
     if got.get("verify") != hx(cl.M2):
-        K0 = "digest-leading-zero" if cl.K[0] == 0 else "other"
+        lead = {"A": 384 - len(cl.A_bytes), "B": 384 - len(bytes.fromhex(got.get("Bb", "")) or b"x" * 384),
+                "S": 384 - len(ref.i2b(cl.S)), "K": len(cl.K) - len(cl.K.lstrip(b"\x00"))}
+        K0 = _shape(lead)
         ctx.fail(
             f"C08:srp-proof-rejected:{K0}",
             f"hsrp.Server rejects / answers wrongly the proof of a correct RFC 5054 client "
             f"(code {case['code']!r}; SHA-512(S) begins with {hx(cl.K[:2])}): verify -> {pe.short(got.get('verify'), 40)}",
-            {"kind": "numeric", **{k: case[k] for k in ("code", "salt", "a", "b")}},
+            {"kind": "numeric", "case": {k: case[k] for k in ("code", "salt", "a", "b")}},
         )
 
 
@@ -271,16 +283,41 @@ def run_exchange(case: Dict[str, Any]):
 def oracle_exchange(ctx: Ctx, case: Dict[str, Any], v: Dict[str, Any]):
     if v["ok"]:
         return
-    shape = "digest-leading-zero" if v.get("K0") else "other"
+    shape = _shape(v.get("lead"))
     ctx.fail(
         f"C08:exchange-fails-at-{v['stage']}:{shape}",
         f"a controller using the correct setup code {case['code']!r} does not complete pair-setup: {v['why']} "
         f"(leading zero bytes {v.get('lead')})",
-        {"kind": "exchange", **case},
+        {"kind": "exchange", "case": case},
     )
 
 
 # --------------------------------------------------------------------------- run
+
+
+def _numeric_worker(case):
+    code, salt = case["code"].encode(), bytes.fromhex(case["salt"])
+    b, a = int(case["b"], 16), int(case["a"], 16)
+    Bb = ref.i2b(ref.server_B(code, salt, b))
+    cl = ref.client(code, salt, Bb, a)
+    return {
+        "got": impl_numeric(code, salt, b, cl.A_bytes, cl.M1),
+        "line": numeric_line(code, salt, b, cl.A_bytes, cl.M1),
+        "cline": {"layer": "srp", "op": "client", "I": hx(USER), "code": hx(code), "salt": hx(salt),
+                  "B": hx(Bb), "a": hx(ref.i2b(a))},
+        "cl": {"a": cl.a, "A_bytes": hx(cl.A_bytes), "u": cl.u, "S": cl.S, "K": hx(cl.K), "M1": hx(cl.M1), "M2": hx(cl.M2)},
+    }
+
+
+def _arbitrary_worker(c):
+    return impl_numeric(c[0].encode(), bytes.fromhex(c[1]), int(c[2], 16), bytes.fromhex(c[3]), bytes.fromhex(c[4]))
+
+
+def _exchange_worker(case):
+    sc, v = run_exchange(case)
+    return {"v": v, "line": sc.model_line(), "impl": sc.impl_view(),
+            "results": [{"status": r["status"], "body": hx(r["body"])[:40] + "...", "paired": len(r["paired"])}
+                        for r in sc.results]}
 
 
 SHA_LENGTHS = [0, 1, 2, 55, 63, 64, 65, 110, 111, 112, 113, 119, 120, 127, 128, 129, 175, 176, 239, 240, 241,
@@ -322,14 +359,11 @@ def run(ctx: Ctx):
     cases = gen_cases(ctx)
 
     # ---- stream numeric
-    for case in cases:
-        code, salt = case["code"].encode(), bytes.fromhex(case["salt"])
-        b, a = int(case["b"], 16), int(case["a"], 16)
-        Bb = ref.i2b(ref.server_B(code, salt, b))
-        cl = ref.client(code, salt, Bb, a)
-        got = impl_numeric(code, salt, b, cl.A_bytes, cl.M1)
+    for case, w in zip(cases, pe.pmap(_numeric_worker, cases, workers=12)):
+        cl = ref.ClientResult(**{k: (bytes.fromhex(v) if isinstance(v, str) else v) for k, v in w["cl"].items()})
+        got = w["got"]
         oracle_numeric(ctx, case, got, cl)
-        lines.append(numeric_line(code, salt, b, cl.A_bytes, cl.M1))
+        lines.append(w["line"])
         impl.append(got)
         tags.append(("numeric", case["kind"]))
         st.hit("op", "numeric-honest")
@@ -337,15 +371,14 @@ def run(ctx: Ctx):
         st.hit("outcome", f"forced-{case['kind']}") if case["kind"] != "random" else None
         st.case(["n", case["code"], case["salt"], case["b"], hx(cl.A_bytes)], True)
         # reference client vs the Lean client (same spec, two implementations)
-        lines.append({"layer": "srp", "op": "client", "I": hx(USER), "code": hx(code), "salt": hx(salt),
-                      "B": hx(Bb), "a": hx(ref.i2b(a))})
+        lines.append(w["cline"])
         impl.append({"A": hx(cl.A_bytes), "u": hx(ref.i2b(cl.u)), "S": hx(ref.i2b(cl.S)), "K": hx(cl.K),
                      "M": hx(cl.M1), "HAMK": hx(cl.M2)})
         tags.append(("client", case["kind"]))
     # arbitrary (not honest, not degenerate) A values and wrong proofs: model vs code only
-    for _ in range(ctx.n(10, 300)):
+    arb = []
+    for _ in range(ctx.n(12, 400)):
         c = random_case(rng)
-        code, salt, b = c["code"].encode(), bytes.fromhex(c["salt"]), int(c["b"], 16)
         n = rng.choice([1, 2, 64, 383, 384, 385, 400])
         A = bytes(rng.randrange(256) for _ in range(n))
         if rng.random() < 0.3:
@@ -353,22 +386,24 @@ def run(ctx: Ctx):
         if ref.b2i(A) % ref.N == 0:
             continue
         M = bytes(rng.randrange(256) for _ in range(rng.choice([0, 1, 63, 64, 65])))
-        lines.append(numeric_line(code, salt, b, A, M))
-        impl.append(impl_numeric(code, salt, b, A, M))
+        arb.append((c["code"], c["salt"], c["b"], hx(A), hx(M)))
+    for c, got in zip(arb, pe.pmap(_arbitrary_worker, arb, workers=12)):
+        lines.append(numeric_line(c[0].encode(), bytes.fromhex(c[1]), int(c[2], 16), bytes.fromhex(c[3]), bytes.fromhex(c[4])))
+        impl.append(got)
         tags.append(("numeric", "arbitrary-A"))
         st.hit("op", "numeric-arbitrary-A")
-        st.case(["n", c["code"], c["salt"], c["b"], hx(A)], True)
+        st.case(["n", c[0], c[1], c[2], c[3]], True)
 
     # ---- stream exchange
     scripts = []
     nforced = len(CORPUS) + 1
-    ex_cases = cases if not ctx.quick else cases[:nforced] + cases[nforced:][:8]
-    for case in ex_cases:
-        sc, v = run_exchange(case)
+    ex_cases = cases if not ctx.quick else cases[:nforced] + cases[nforced:][:14]
+    for case, w in zip(ex_cases, pe.pmap(_exchange_worker, ex_cases, workers=12)):
+        v = w["v"]
         oracle_exchange(ctx, case, v)
-        scripts.append((case, sc, v))
-        lines.append(sc.model_line())
-        impl.append(sc.impl_view())
+        scripts.append((case, w["results"], v))
+        lines.append(w["line"])
+        impl.append(w["impl"])
         tags.append(("exchange", case["kind"]))
         st.hit("op", "exchange")
         st.hit("outcome", "exchange-" + ("completed" if v["ok"] else "failed-at-" + v["stage"]))
@@ -385,11 +420,9 @@ def run(ctx: Ctx):
             ctx.disagree(tag[0], {"tag": tag, "line": pe.short(json.dumps(ln), 400)}, _diff(mv, i), "see model")
 
     if scripts:
-        case, sc, v = scripts[0]
+        case, results, v = scripts[0]
         st.sample({"exchange": {k: case[k] for k in ("kind", "code", "salt")}, "completed": v["ok"],
-                   "leading_zero_bytes": v.get("lead"),
-                   "impl": [{"status": r["status"], "body": hx(r["body"])[:40] + "...", "paired": len(r["paired"])}
-                            for r in sc.results]})
+                   "leading_zero_bytes": v.get("lead"), "impl": results})
     k = next(i for i, t in enumerate(tags) if t[0] == "numeric")
     st.sample({"numeric": {kk: lines[k][kk][:32] for kk in ("code", "salt", "b")},
                "impl_M": impl[k].get("M", "")[:32] + "...", "model_M": str(model[k].get("M", ""))[:32] + "..."})
@@ -425,20 +458,21 @@ def search(ctx: Ctx):
 
 
 def replay(ctx: Ctx, r):
+    c = r.get("case", r)
     if r["kind"] == "exchange":
-        sc, v = run_exchange(r)
-        oracle_exchange(ctx, r, v)
-        print("exchange:", {k: r[k] for k in ("code", "salt", "a", "b")})
+        sc, v = run_exchange(c)
+        oracle_exchange(ctx, c, v)
+        print("exchange:", {k: c[k] for k in ("code", "salt", "a", "b")})
         for n, res in enumerate(sc.results):
             print(f"  op{n}: HTTP {res['status']} body {hx(res['body'])[:60]}... paired={len(res['paired'])}")
         print("  leading zero bytes:", v.get("lead"), "| reached", v["stage"], "|", v["why"] or "completed")
     elif r["kind"] == "numeric":
-        code, salt = r["code"].encode(), bytes.fromhex(r["salt"])
-        b, a = int(r["b"], 16), int(r["a"], 16)
+        code, salt = c["code"].encode(), bytes.fromhex(c["salt"])
+        b, a = int(c["b"], 16), int(c["a"], 16)
         cl = ref.client(code, salt, ref.i2b(ref.server_B(code, salt, b)), a)
         got = impl_numeric(code, salt, b, cl.A_bytes, cl.M1)
-        oracle_numeric(ctx, r, got, cl)
-        print("numeric:", {k: r[k] for k in ("code", "salt", "a", "b")})
+        oracle_numeric(ctx, c, got, cl)
+        print("numeric:", {k: c[k] for k in ("code", "salt", "a", "b")})
         print("  client K =", hx(cl.K)[:16], "... server Kb =", got.get("Kb", "")[:16], "... verify ->", pe.short(got.get("verify"), 24))
     else:
         print("nothing to replay for kind", r["kind"])
